@@ -10,7 +10,7 @@ import warnings
 import numpy as np
 
 from . import tlc, tlaparse, disk
-from .arraymodel import (tlaval, classify, IterFault, Skip, FsizeFault, ArmingIter, NONINT, out_agrees, _firstdiff)
+from .arraymodel import (tlaval, classify, IterFault, IterInterrupt, RAISED, Skip, FsizeFault, ArmingIter, NONINT, out_agrees, _firstdiff)
 from .concretize import Config, GARBAGE, INDEXTYPES, NUMTYPES, BYTEORDERS
 
 warnings.simplefilter('ignore')
@@ -176,7 +176,7 @@ class Session:
             getattr(self, 'do_' + name)(*args)
         except Skip:
             raise
-        except Exception as e:   # noqa
+        except (Exception, KeyboardInterrupt, IterInterrupt) as e:   # noqa
             # keep no reference to the exception object: its traceback would keep
             # frames (and whatever they hold open) alive into the next call
             return classify(e), repr(e)[:300]
@@ -237,7 +237,9 @@ class Session:
             def gen():
                 for c in items:
                     yield c
-                raise IterFault('iterable raises')
+                raise exc_class('iterable raises')
+            self.nraise = getattr(self, 'nraise', len(items)) + 1
+            exc_class = RAISED[self.nraise % 3]
             ra.iterappend(gen())
         elif kind in ('atom', 'rank', 'conv'):
             ra.iterappend(items + [self.bad_item(kind)])
